@@ -15,13 +15,14 @@ import (
 func init() { register("C05", checkC05) }
 
 type cell struct {
-	Name     string
-	Upd      int // 0 unset, 1 true, 2 false
-	API      string
-	State    string // missing | equal | different
-	Obsolete bool
-	Dir      string
-	FreshDir bool // the snapshot directory (three levels) does not exist before the run
+	Name      string
+	Upd       int // 0 unset, 1 true, 2 false
+	API       string
+	State     string // missing | equal | different
+	Obsolete  bool
+	Dir       string
+	FreshDir  bool // the snapshot directory (three levels) does not exist before the run
+	EmptyFile bool // the multi-entry file exists before the run and has 0 bytes
 }
 
 func updPtr(u int) *bool {
@@ -125,7 +126,7 @@ func entryIDs(es []vkit.SnapEntry) []string {
 // checkC05 sweeps the complete mode table with real environment variables:
 // 16 child processes (CI x UPDATE_SNAPS x Sort), 90 + 15 cells each.
 func checkC05(c *vkit.Ctx) {
-	c.P.Rule = "complete product CI{on,off} x Update{unset,true,false} x UPDATE_SNAPS{unset,true,clean,other} x Sort{off,on} x entry point(5) x entry state{missing,equal,different} x obsolete{absent,present} = 1440 cells, swept for three value families (plain, blank stored value, hostile lines); 16 real child processes per sweep (environment variables CI / UPDATE_SNAPS set for real, Clean option) each running 90 cells in separate absolute directories plus 15 cells whose snapshot directory does not exist yet (a rejected call must leave no directory behind), then Clean; oracle: literal mode table for the call outcome and for the per-path directory delta of the Match phase and of the Clean phase (backdated mtimes: untouched means not written), Clean summary verbs and lists; non-trivial = every cell (each is a distinct configuration); the table is swept completely on every run; CI processes of odd rounds run as an unprivileged user on a read-only tree (files 0444, directories 0555); thorough repeats it for several value/name seeds and adds an strace witness on CI cells"
+	c.P.Rule = "complete product CI{on,off} x Update{unset,true,false} x UPDATE_SNAPS{unset,true,clean,other} x Sort{off,on} x entry point(5) x entry state{missing,equal,different} x obsolete{absent,present} = 1440 cells, swept for three value families (plain, blank stored value, hostile lines); 16 real child processes per sweep (environment variables CI / UPDATE_SNAPS set for real, Clean option) each running 90 cells in separate absolute directories plus 15 cells whose snapshot directory does not exist yet (a rejected call must leave no directory behind) and 9 cells whose multi-entry file exists with 0 bytes, then Clean; oracle: literal mode table for the call outcome and for the per-path directory delta of the Match phase and of the Clean phase (backdated mtimes: untouched means not written), Clean summary verbs and lists; non-trivial = every cell (each is a distinct configuration); the table is swept completely on every run; CI processes of odd rounds run as an unprivileged user on a read-only tree (files 0444, directories 0555); thorough repeats it for several value/name seeds and adds an strace witness on CI cells"
 	c.P.Assumptions = []string{"children run with a minimal environment plus one of eleven CI-on variable sets (CI=true|1|empty, GITHUB_ACTIONS, GITLAB_CI, CIRCLECI, BUILD_NUMBER, RUN_ID, CONTINUOUS_INTEGRATION) or, for CI off, nothing or CI=false (alone, or overriding a vendor variable) - the detection rule is ciinfo's", "strace (thorough) is a second witness only; the digest decides"}
 	p, done := workerProgram(c, "")
 	defer done()
@@ -225,6 +226,23 @@ func runC05Proc(c *vkit.Ctx, p *Program, caseIdx, round int, ci bool, updVar str
 			cells = append(cells, cl)
 		}
 	}
+	// nine more cells whose multi-entry file exists but is empty (0 bytes: what is left when
+	// the last entry of a file was removed by hand, or by an interrupted rewrite): the entry
+	// is missing, the file is in use, and nobody may remove or write it without permission
+	for upd := 0; upd < 3; upd++ {
+		for _, api := range []string{"snap", "json", "yaml"} {
+			name := fmt.Sprintf("c%03d", n)
+			n++
+			cl := cell{Name: name, Upd: upd, API: api, State: "missing", Dir: filepath.Join(cellsRoot, name), EmptyFile: true}
+			test := top + "/" + name
+			os.MkdirAll(cl.Dir, 0o755)
+			os.WriteFile(filepath.Join(cl.Dir, "cell.snap"), nil, 0o644)
+			in, _ := liveVal(api, "live")
+			scn.Nodes[test] = &Node{Calls: []Call{{API: api, Val: in, Dir: cl.Dir, File: "cell", Update: updPtr(upd)}}}
+			topNode.Subs = append(topNode.Subs, name)
+			cells = append(cells, cl)
+		}
+	}
 	// what every cell directory holds before the run
 	before := map[string][]vkit.SnapEntry{}
 	for _, cl := range cells {
@@ -294,6 +312,9 @@ func runC05Proc(c *vkit.Ctx, p *Program, caseIdx, round int, ci bool, updVar str
 		if len(crs) > 1 && crs[1].Outcome != vkit.Passed {
 			c.Violate("mode-table-outcome", "", fmt.Sprintf("%s cell %+v: second (equal) call got %s", procDesc, cl, crs[1].Outcome), in)
 			continue
+		}
+		if cl.EmptyFile {
+			c.Count("cells_whose_file_exists_but_is_empty", 1)
 		}
 		if cl.FreshDir {
 			c.Count("fresh_directory_cells", 1)
@@ -403,7 +424,7 @@ func runC05Proc(c *vkit.Ctx, p *Program, caseIdx, round int, ci bool, updVar str
 			c.Violate("clean-touched-live-standalone", "", fmt.Sprintf("%s cell %+v", procDesc, cl), in)
 			continue
 		}
-		c.Case(vkit.Hash(ci, updVar, sortOpt, cl.Upd, cl.API, cl.State, cl.Obsolete, cl.FreshDir, round), true)
+		c.Case(vkit.Hash(ci, updVar, sortOpt, cl.Upd, cl.API, cl.State, cl.Obsolete, cl.FreshDir, cl.EmptyFile, round), true)
 		if cl.Name == "c007" {
 			c.Sample(map[string]any{"process": procDesc, "cell": cl, "outcome": got, "clean_deletes": deletes, "clean_sorts": sorts})
 		}
